@@ -1,0 +1,20 @@
+//go:build !verif
+
+package scorch
+
+import (
+	segment "github.com/blevesearch/scorch_segment_api/v2"
+)
+
+// No-op counterparts of the /verif instrumentation hooks (see verif_on.go, build tag verif).
+
+type verifMergeInfo struct{}
+
+func verifPoint(s *Scorch, name string, args ...uint64)                                  {}
+func verifIntroduceSegment(s *Scorch, next *segmentIntroduction, snap *IndexSnapshot)    {}
+func verifPersistedIDs(m map[uint64]segment.Segment) []uint64                            { return nil }
+func verifIntroducePersist(s *Scorch, ids []uint64, snap *IndexSnapshot)                 {}
+func verifMergeTasks(sm *segmentMerge) *verifMergeInfo                                   { return nil }
+func verifMergeStart(s *Scorch, epoch uint64, sm *segmentMerge)                          {}
+func verifIntroduceMerge(s *Scorch, info *verifMergeInfo, skipped []bool, snap *IndexSnapshot) {
+}
